@@ -25,6 +25,9 @@ access(all) contract T {
   access(all) struct A: I { init() {} }
   access(all) struct B: I, J { init() {} }
   access(all) struct C { init() {} }
+  access(all) resource interface RI {}
+  access(all) resource R: RI {}
+  access(all) resource Q {}
 
   access(all) fun join(_ xs: [UInt64]): String {
     var s = "l:"
@@ -39,6 +42,18 @@ access(all) contract T {
   access(all) fun capinfo(_ c: Capability): String {
     return "k:".concat(c.id.toString()).concat("#").concat(c.address.toString()).concat("#").concat(c.getType().identifier)
   }
+  access(all) fun mkR(): @R { return <- create R() }
+  access(all) fun mkQ(): @Q { return <- create Q() }
+  // empty a storage path, whatever kind of value it holds
+  access(all) fun clear(_ s: auth(Storage) &Account, _ p: StoragePath) {
+    if let t = s.storage.type(at: p) {
+      if t.isSubtype(of: Type<@AnyResource>()) {
+        destroy s.storage.load<@AnyResource>(from: p)
+      } else {
+        let old = s.storage.load<AnyStruct>(from: p)
+      }
+    }
+  }
   access(all) fun put(_ s: auth(Storage) &Account, _ k: StoragePath, _ c: Capability) {
     let old = s.storage.load<AnyStruct>(from: k)
     s.storage.save(c, to: k)
@@ -46,8 +61,8 @@ access(all) contract T {
 }
 `
 
-var baseNames = []string{"BA", "BB", "BC", "BI", "BJ", "BIJ", "BAny", "BAcct"}
-var baseSrc = []string{"T.A", "T.B", "T.C", "{T.I}", "{T.J}", "{T.I, T.J}", "AnyStruct", "Account"}
+var baseNames = []string{"BA", "BB", "BC", "BI", "BJ", "BIJ", "BAny", "BAcct", "BR", "BQ", "BRI", "BAnyRes"}
+var baseSrc = []string{"T.A", "T.B", "T.C", "{T.I}", "{T.J}", "{T.I, T.J}", "AnyStruct", "Account", "T.R", "T.Q", "{T.RI}", "AnyResource"}
 var entNames = []string{"T.E", "T.F", "T.G"}
 
 type authT struct {
@@ -62,7 +77,7 @@ var auths = []authT{
 	{2, []int{0, 1}}, {2, []int{0, 2}}, {2, []int{1, 2}}, {2, []int{0, 1, 2}},
 }
 
-const nBase = 8
+const nBase = 12
 
 // a borrow type is an index: auth*nBase + base
 type btyT int
@@ -174,6 +189,9 @@ func semaTypes() (bases []sema.Type, accs []sema.Access, err error) {
 		sema.NewIntersectionType(nil, nil, []*sema.InterfaceType{j}),
 		sema.NewIntersectionType(nil, nil, []*sema.InterfaceType{i, j}),
 		sema.AnyStructType, sema.AccountType,
+		nested("R"), nested("Q"),
+		sema.NewIntersectionType(nil, nil, []*sema.InterfaceType{nested("RI").(*sema.InterfaceType)}),
+		sema.AnyResourceType,
 	}
 	ents := []*sema.EntitlementType{
 		nested("E").(*sema.EntitlementType), nested("F").(*sema.EntitlementType), nested("G").(*sema.EntitlementType),
@@ -240,7 +258,7 @@ func typeTableCases(dir string, sum *lib.Summary, thorough bool) []string {
 	n := nBty()
 	for x := 0; x < n; x++ {
 		for y := 0; y < n; y++ {
-			if !thorough && (x*7+y*13)%3 != 0 {
+			if !thorough && (x*7+y*13)%6 != 0 {
 				continue
 			}
 			rx, ry := ref(btyT(x)), ref(btyT(y))
